@@ -123,8 +123,15 @@ def check(ctx):
     pl = ctx.repo.module(PL)
     fn = pl.func("CommandPipeline._raise_subproc_error")
     st = f"{PL}:CommandPipeline._raise_subproc_error"
-    rows = _table(dtable.paths(fn), st)
-    if len(rows) < 5:
+    from ..engine import inline as _inl
+
+    def flat_paths(f_):
+        """decision paths of f_ with its helpers expanded; infeasible (constant-decided) paths dropped"""
+        ff = _inl.flatten(ctx.repo, f_, depth=2, skip=("_return_terminal", "print_exception"))
+        return dtable.simplified(dtable.paths(ff))
+
+    rows = _table(flat_paths(fn), st)
+    if len(rows) < 4:
         raise AnalysisError(f"{st}: only {len(rows)} paths enumerated")
     for atoms, raises, unknown, p in rows:
         if unknown:
@@ -161,12 +168,13 @@ def check(ctx):
     for q in ("subproc_check_boolop", "_check_subproc_helper_raise"):
         fn = bi.func(q)
         st = f"{BI}:{q}"
-        rows = _table(dtable.paths(fn), st)
+        rows = _table(flat_paths(fn), st)
         n_raise = 0
         for atoms, raises, unknown, p in rows:
-            if unknown:
-                raise AnalysisError(f"{st}: unrecognised guard(s) {unknown} on path {p!r}")
-            desc = ", ".join(f"{k}={v}" for k, v in sorted(atoms.items()))
+            # a guard the table does not know can only *restrict* a path: a raising path stays licensed by the
+            # atoms it does carry, a non-raising path must still carry a documented exemption among them
+            # (an unknown test such as `if value: return value` is no exemption)
+            desc = ", ".join(f"{k}={v}" for k, v in sorted(atoms.items())) + (f" + unrecognised {unknown}" if unknown else "")
             if raises:
                 n_raise += 1
                 need = {"chain_flag": True, "rtn_none": False, "rtn_zero": False, "captured_object": False, "rse_false": False, "background": False, "spec_none": False}
@@ -187,7 +195,8 @@ def check(ctx):
                     or atoms.get("rse_false") is True
                     or (q == "_check_subproc_helper_raise" and atoms.get("in_boolop") is True)
                 )
-                ctx.ob("R1", st, f"non-raising path [{desc}] carries a documented exemption", ex, key=f"{q}|noraise-unexempt|{desc}", where=loc(p.node) if p.node is not None else loc(fn))
+                kd = ", ".join(f"{k}={v}" for k, v in sorted(atoms.items()))
+                ctx.ob("R1", st, f"non-raising path [{desc}] carries a documented exemption", ex, key=f"{q}|noraise-unexempt|{kd}", where=loc(p.node) if p.node is not None else loc(fn))
         ctx.ob("R1", st, "the function can raise CalledProcessError", n_raise >= 1, key=f"{q}|never-raises")
     # non-raising returns of subproc_check_boolop hand the value back unchanged
     fn = bi.func("subproc_check_boolop")
@@ -394,13 +403,17 @@ def check(ctx):
     src = unparse(mx)
     # in the finally: a non-SystemExit exception sets exit_code = 1
     retvars = {n.value.id for n in walk_local(mx) if isinstance(n, ast.Return) and isinstance(n.value, ast.Name)}
+    # fact based (branch order / else-vs-negated-test do not matter): some assignment of a non-zero constant to
+    # the returned variable, inside a finally, is guarded by "the recorded exception is not SystemExit"
     fin_ok = False
+    mcfg = CFG(mx)
     for n in ast.walk(mx):
         if isinstance(n, ast.Try) and n.finalbody:
             for m in ast.walk(ast.Module(body=n.finalbody, type_ignores=[])):
-                if isinstance(m, ast.If) and "SystemExit" in unparse(m.test):
-                    for s in m.orelse:
-                        if isinstance(s, ast.Assign) and unparse(s.targets[0]) in retvars and isinstance(const_value(s.value), int) and const_value(s.value) != 0:
+                if isinstance(m, ast.Assign) and unparse(m.targets[0]) in retvars and isinstance(const_value(m.value), int) and not isinstance(const_value(m.value), bool) and const_value(m.value) != 0:
+                    for node in mcfg.nodes_of(m):
+                        fs = [dtable.normalise(e, pol) for e, pol in facts_at(mcfg, node)]
+                        if any("SystemExit" in unparse(e) and not pol for e, pol in fs):
                             fin_ok = True
     ctx.ob("R5", f"{MN}:main_xonsh", "an exception other than SystemExit recorded in exc_info sets a non-zero exit code", fin_ok, key="main|exception-exit-code")
     fired = {unparse(k.value) for c in calls_in(mx) if (call_name(c) or "").endswith("on_exit.fire") for k in c.keywords if k.arg == "exit_code"}
